@@ -90,3 +90,31 @@ pub open spec fn join_spec(ss: Seq<Seq<char>>, sep: Seq<char>) -> Seq<char>
 pub open spec fn views(v: Seq<String>) -> Seq<Seq<char>> { Seq::new(v.len(), |i: int| v[i]@) }
 #[verifier::external_body]
 pub fn vx_join_strings(v: &Vec<String>, sep: &str) -> (r: String) ensures r@ == join_spec(views(v@), sep@) { unimplemented!() }
+// ---- thin wrappers: what is proved is that EVERY input goes to the documented std / Value function with the
+// documented arguments and that its answer is returned unchanged (no fast path, no special case)
+pub uninterp spec fn safe_string_of(s: Seq<char>) -> Value;
+pub uninterp spec fn reverse_spec(v: Value) -> Result<Value, Error>;
+pub uninterp spec fn split_values(s: Seq<char>, pat: Seq<char>) -> Value;
+pub uninterp spec fn words_count(s: Seq<char>) -> usize;
+pub uninterp spec fn replace_any_spec(s: Seq<char>, a: char, b: char, to: Seq<char>) -> Seq<char>;
+impl Value {
+    #[verifier::external_body]
+    pub fn safe_string(val: &str) -> (r: Value) ensures r == safe_string_of(val@) { unimplemented!() }
+    #[verifier::external_body]
+    pub fn reverse(&self) -> (r: TeraResult<Value>) ensures r == reverse_spec(*self) { unimplemented!() }
+}
+/// a `Cow<str>` receiver seen as the text it holds
+#[verifier::external_body]
+pub struct VxCowStr { _p: () }
+impl VxCowStr { pub uninterp spec fn view(&self) -> Seq<char>; }
+#[verifier::external_body]
+pub fn vx_cow_as_str(c: &VxCowStr) -> (r: &str) ensures r@ == c@ { unimplemented!() }
+/// `val.split(pat).map(Into::into).collect::<Vec<Value>>().into()`: std's str::split, each piece a string value
+#[verifier::external_body]
+pub fn vx_split_values(val: &str, pat: &str) -> (r: Value) ensures r == split_values(val@, pat@) { unimplemented!() }
+/// `val.split_whitespace().count()`
+#[verifier::external_body]
+pub fn vx_words_count(val: &str) -> (r: usize) ensures r == words_count(val@) { unimplemented!() }
+/// `s.replace(['\n', '\r'], to)`: every occurrence of either character
+#[verifier::external_body]
+pub fn vx_replace_any2(s: &String, a: char, b: char, to: &str) -> (r: String) ensures r@ == replace_any_spec(s@, a, b, to@) { unimplemented!() }
